@@ -29,16 +29,16 @@ Proof.
   rewrite E. cbn [bind]. destruct (IH (Z.quot c B)) as [r Er]. rewrite Er. cbn [bind]. eexists; reflexivity.
 Qed.
 
-Theorem plan_generic_total B (s : st) dev : exists pls, plan_generic B s dev = Ok pls.
+Theorem plan_generic_total B (s : st) dev : exists pls, plan_generic_core B s dev = Ok pls.
 Proof.
   rewrite plan_generic_unfold. cbv zeta.
   destruct (int_slice_diff dev (get_enabled_uplink_channel_indices s)) as [|d0 diff]; [eexists; reflexivity|].
   destruct (filter _ _); [eexists; reflexivity|]. apply plan_loop_ok.
 Qed.
 
-Theorem plan_us_total B (s : st) dev : exists pls, plan_us B s dev = Ok pls.
+Theorem plan_us_total B (s : st) dev : exists pls, plan_us_core B s dev = Ok pls.
 Proof.
-  unfold plan_us. destruct (plan_generic_total B s dev) as [a E]. rewrite E. cbn [bind]. eexists; reflexivity.
+  unfold plan_us_core. destruct (plan_generic_total B s dev) as [a E]. rewrite E. cbn [bind]. eexists; reflexivity.
 Qed.
 
 Lemma apply_bits_no_panic n base : forall bits i m, 0 <= base -> 0 <= i -> length m = Z.to_nat n ->
